@@ -27,6 +27,7 @@ def run(chk, tier):
     facts = gen.facts()
     gtpl.check(chk)
     gflow.check_free_text(chk)
+    gflow.check_numeric_text(chk)
     gtab.check(chk, facts, which=("keys", "literal", "sizes", "wrapper"))
     gnames.check_keywords(chk)
     gnames.check_name_capture(chk)
